@@ -35,8 +35,10 @@ def gen_desc(rng):
         'logo': rng.rbytes(rng.pick([0x200, 0x2000 // 8])) if rng.chance(0.3) else None,
         'plain': rng.rbytes(rng.randint(1, 0x300)) if rng.chance(0.4) else None,
         'exefs_files': files, 'romfs': romfs,
-        'gaps': {rng.pick(['exefs', 'romfs', 'plain', 'logo']): 1} if rng.chance(0.3) else None,
-        'tail_gap': rng.pick([0, 0, 1]),
+        # unclaimed space: between sections (1-4 chunks, sometimes before two sections) and after the last one (0-4 chunks)
+        'gaps': ({rng.pick(['exefs', 'romfs', 'plain', 'logo']): rng.pick([1, 1, 2, 3, 4]),
+                  rng.pick(['exefs', 'romfs', 'plain', 'logo']): rng.pick([1, 2])} if rng.chance(0.4) else None),
+        'tail_gap': rng.pick([0, 0, 1, 2, 4]),
     }
 
 
